@@ -17,7 +17,8 @@ NAN = [0, 0]
 
 
 class Mode:
-    """number representation used when building real objects from spec values"""
+    """number representation used when building real objects from spec values.
+    num: knots / parameters / scalars;  pt: control points and weights"""
 
     name = "fraction"
     exact = True
@@ -27,17 +28,22 @@ class Mode:
             return "not-a-number"
         return fr(q)
 
+    def pt(self, q):
+        return self.num(q)
+
     def nums(self, qs):
         return [self.num(q) for q in qs]
 
+    def pts(self, qs):
+        return [self.pt(q) for q in qs]
+
 
 class IntMode(Mode):
-    """ints where the value is integral, Fraction otherwise"""
+    """Fraction knots and parameters, int control points and weights where the value is integral
+    (the combination the property promises exact results for)"""
     name = "int"
 
-    def num(self, q):
-        if list(q) == NAN:
-            return "not-a-number"
+    def pt(self, q):
         f = fr(q)
         return int(f) if f.denominator == 1 else f
 
@@ -134,14 +140,25 @@ class Replayer:
             return self.KnotVector(self.mode.nums(o["U"]))
         if o["kind"] == "cv":
             c = self.Curve(self.mode.nums(o["U"]))
-            c.ctrlpoints = self.mode.nums(o["P"])
+            c.ctrlpoints = self.mode.pts(o["P"])
             if o["W"]:
-                c.weights = self.mode.nums(o["W"])
+                c.weights = self.mode.pts(o["W"])
             return c
         raise core.MachineryError(f"unknown object kind {o}")
 
     def build(self, heap):
-        return {k: self.build_obj(v) for k, v in heap.items()}
+        live = {k: self.build_obj(v) for k, v in heap.items()}
+        if "k" in heap and heap["k"]["kind"] == "kv":
+            # curves whose knot vector equals k's are built FROM THE SAME KnotVector object (siblings)
+            kobj = live["k"]
+            for name, o in heap.items():
+                if o["kind"] == "cv" and o["U"] == heap["k"]["U"]:
+                    c = self.Curve(kobj)
+                    c.ctrlpoints = self.mode.pts(o["P"])
+                    if o["W"]:
+                        c.weights = self.mode.pts(o["W"])
+                    live[name] = c
+        return live
 
     def num_out(self, x):
         """observed number -> comparable: exact JSON rational in exact modes, float otherwise"""
@@ -301,7 +318,7 @@ class Replayer:
         kv = live[a["obj"]]
         f = self.Function(kv)
         if a["weights"]:
-            f.weights = self.mode.nums(a["weights"])
+            f.weights = self.mode.pts(a["weights"])
         u = self.mode.num(a["u"])
         return {"f": f, "u": u}
 
@@ -402,7 +419,7 @@ class Replayer:
         return {"parts": live[a["obj"]].fraction()}
 
     def do_CvSetCtrlpoints(self, live, a):
-        live[a["obj"]].ctrlpoints = self.mode.nums(a["points"])
+        live[a["obj"]].ctrlpoints = self.mode.pts(a["points"])
 
     def do_CvSetKnotvector(self, live, a):
         live[a["obj"]].knotvector = self.mode.nums(a["kv"])
@@ -474,6 +491,19 @@ class Replayer:
         from compmec.nurbs.calculus import Integrate
         return {"I": Integrate.scalar(live[a["obj"]])}
 
+    def do_IntegrateFn(self, live, a):
+        from compmec.nurbs.calculus import Integrate
+        kv = live[a["obj"]].knotvector
+        k = a["k"]
+        f = lambda u: u ** k
+        if a["method"] == "default":
+            return {"I": Integrate.function(kv, f)}
+        return {"I": Integrate.function(kv, f, a["method"], a["nnodes"])}
+
+    def do_GeoLength(self, live, a):
+        from compmec.nurbs.calculus import Integrate
+        return {"L": Integrate.lenght(self.polyline(a["curve"]))}
+
     def do_CvFitCurve(self, live, a):
         S = live[a["obj"]]
         C = self.curve_from(a["other"])
@@ -484,7 +514,7 @@ class Replayer:
 
     def do_CvFitPoints(self, live, a):
         S = live[a["obj"]]
-        data = self.mode.nums(a["data"])
+        data = self.mode.pts(a["data"])
         if a["dflt"]:
             S.fit_points(data)
         else:
@@ -641,9 +671,8 @@ class Replayer:
             if not self.same_obj(self.project(cp), want):
                 f.append("copy differs from the original")
                 continue
-            lo, hi = cp.knotvector.limits
             try:
-                cp.knot_insert([(lo + hi) / 2])
+                cp.degree_increase(1)
                 cp.ctrlpoints = [2 * p + 1 for p in cp.ctrlpoints]
                 cp.knotvector.shift(1)
             except Exception as e:
@@ -735,6 +764,19 @@ class Replayer:
     def cmp_CvIntegrate(self, live, t, val):
         ok, msg = self._point_ok(val["I"], t["ret"]["val"])
         return [] if ok else [f"integral: {msg}"]
+
+    def cmp_IntegrateFn(self, live, t, val):
+        a = t["act"]
+        want = t["ret"]["val"]
+        if a["method"] in ("closed-newton-cotes", "open-newton-cotes", "default") and self.mode.exact:
+            ok, msg = self._point_ok(val["I"], want)
+        else:
+            ok, msg = close(val["I"], fr(want)), f"got {val['I']!r}, spec {float(fr(want))!r}"
+        return [] if ok else [f"integral of u^{a['k']} with {a['method']}/{a['nnodes']}: {msg}"]
+
+    def cmp_GeoLength(self, live, t, val):
+        want = sum(float(fr(x)) ** 0.5 for x in t["ret"]["val"])
+        return [] if close(val["L"], want) else [f"length: got {val['L']!r}, spec {want!r}"]
 
     def cmp_CvFitCurve(self, live, t, val):
         return [] if val["other_unchanged"] else ["source curve modified"]
@@ -1066,9 +1108,9 @@ def _worker(args):
     lo, hi = args
     from .trace import Validator
 
-    lib = core.import_lib()
     val = Validator()
-    r = Replayer(lib, _W["mode"], validator=val)
+    r = _W["replayer"]                      # the configured replayer, copied into this process by fork
+    r.validator = val if _W["emit"] else None
     recs, parent = _W["records"], _W["parent"]
     out = []
     for i in range(lo, hi):
@@ -1101,7 +1143,7 @@ def replay_all(records, replayer, on_fail, *, sample=None, limit=None, nproc=Non
             elif sample is not None:
                 sample(t)
         return n
-    _W.update(records=records, parent=parent, mode=replayer.mode.name)
+    _W.update(records=records, parent=parent, replayer=replayer, emit=replayer.validator is not None)
     size = max(20, len(records) // (nproc * 8))
     chunks = [(i, min(i + size, len(records))) for i in range(0, len(records), size)]
     ctx = mp.get_context("fork")
